@@ -12,6 +12,7 @@ import (
 	"encoding/base64"
 	"fmt"
 	"os"
+	"strings"
 	"time"
 
 	tok "verifharness/c02_tok"
@@ -31,11 +32,12 @@ var algs = []string{"RS256", "ES256", "PS256", "RS384", "RS512", "PS384", "PS512
 
 func halfHash(alg, at string) (half, full string) {
 	var sum []byte
-	switch alg {
-	case "RS256", "ES256", "PS256":
+	// the hash named by the algorithm's suffix (HS* included); EdDSA: SHA-512
+	switch {
+	case strings.HasSuffix(alg, "256"):
 		s := sha256.Sum256([]byte(at))
 		sum = s[:]
-	case "RS384", "ES384", "PS384":
+	case strings.HasSuffix(alg, "384"):
 		s := sha512.Sum384([]byte(at))
 		sum = s[:]
 	default:
@@ -67,6 +69,13 @@ func main() {
 	for i := 0; i < n; i++ {
 		alg := algs[i%len(algs)]
 		signer := drv.Pick(r, pool.ForAlg(alg))
+		// HMAC configuration end to end: HS* allowed, ID token MACed with a shared
+		// secret, caller-supplied key set that verifies with that secret
+		hmacCase := r.Chance(1, 10)
+		if hmacCase {
+			alg = drv.Pick(r, []string{"HS256", "HS384", "HS512"})
+			signer = pool.Keys[8]
+		}
 		kid := drv.Pick(r, []string{"k1", "k1", "k2", ""})
 		ext := fmt.Sprintf("x%d", r.IntN(100000))
 
@@ -221,7 +230,7 @@ func main() {
 					c.AtHash, _ = halfHash(alg, at+"x")
 				default:
 					oa := "RS512"
-					if alg == "RS512" || alg == "PS512" || alg == "ES512" || alg == "EdDSA" {
+					if strings.HasSuffix(alg, "512") || alg == "EdDSA" {
 						oa = "RS256"
 					}
 					c.AtHash, _ = halfHash(oa, at)
@@ -229,6 +238,20 @@ func main() {
 				withAT = true
 			}
 			tags = append(tags, "m_"+d+"="+val)
+		}
+		if hmacCase && !done["at_hash"] && r.Chance(2, 3) {
+			// what does at_hash do under HS*?  present and right / present and wrong
+			withAT = true
+			val := drv.Pick(r, []string{"right", "other_token", "other_token", "wrong"})
+			switch val {
+			case "right":
+				c.AtHash = half
+			case "other_token":
+				c.AtHash, _ = halfHash(alg, at+"x")
+			default:
+				c.AtHash = "AAAA" + half[4:]
+			}
+			tags = append(tags, "m_at_hash=hmac_"+val)
 		}
 		tags = append(tags, fmt.Sprintf("nmut=%d", len(done)))
 
@@ -248,15 +271,24 @@ func main() {
 		if r.Chance(1, 4) {
 			ks.Cached = served
 		}
+		if hmacCase || r.Chance(1, 12) {
+			// caller-supplied key set: verification under one fixed key
+			ks = tok.KeySetDesc{Kind: "static", Static: tok.JWK{Kid: kid, Use: "", Key: signer}}
+		}
 		sigTag := "ok"
 		mut := "none"
 		evil := c
 		evil.Sub = "attacker"
 		if r.Chance(1, 8) {
 			sigTag = drv.Pick(r, []string{"wrongkey", "alg_not_allowed", "absent_key", "ambiguous", "mut", "mut", "mut", "benign", "benign"})
+			if ks.Kind == "static" && (sigTag == "absent_key" || sigTag == "ambiguous") {
+				sigTag = "wrongkey"
+			}
 			switch sigTag {
 			case "wrongkey":
-				if o := pool.Other(r, signer, alg); o != nil {
+				if o := pool.Other(r, signer, alg); o != nil && ks.Kind == "static" {
+					ks.Static.Key = o
+				} else if o != nil {
 					for x := range ks.Served {
 						if ks.Served[x].Key == signer {
 							ks.Served[x].Key = o
@@ -286,9 +318,19 @@ func main() {
 			}
 		}
 		tags = append(tags, "sig="+sigTag, "mut="+mut, "alg="+alg)
-		opts := tok.PayloadOpts{ExtraKey: "ext", Reverse: r.Bool(), AudSingle: r.Bool(), TimeString: r.Chance(1, 10)}
+		// byte forms of the same claims: member order, single-string aud, RFC 3339 times,
+		// insignificant whitespace around the object, a shadowed duplicate member, unicode escapes
+		opts := tok.PayloadOpts{ExtraKey: "ext", Reverse: r.Bool(), AudSingle: r.Bool(), TimeString: r.Chance(1, 10),
+			DupKey: r.Chance(1, 10), Escape: r.Chance(1, 8), Spaces: r.Chance(1, 8)}
+		form := "bare"
+		if r.Chance(1, 5) {
+			opts.Lead = drv.Pick(r, []string{"", "", " ", "\n", "\t \r\n"})
+			opts.Trail = drv.Pick(r, []string{"\n", "\n", " ", "\r\n", "  \n"})
+			form = "padded"
+		}
+		tags = append(tags, "payload_form="+form, fmt.Sprintf("keyset=%s", ks.Kind), fmt.Sprintf("hmac=%v", hmacCase))
 		alt := opts
-		alt.Spaces = true
+		alt.Spaces = !opts.Spaces
 		spec := tok.BuildSpec{Signer: signer, Alg: alg, Kid: kid, Claims: c, Payload: c.Payload(opts), Mut: mut, OtherKid: "k9",
 			EvilClaims: evil, EvilPayload: evil.Payload(opts), AltPayload: c.Payload(alt), Other: pool.Other(r, signer, alg)}
 		if spec.Other == nil {
